@@ -1,0 +1,12 @@
+//go:build verif
+
+// Contracts for package link, checked by /verif (bfvc). Comment-only.
+package link
+
+//@ ifacegetters EstablishLinkWithPeer HandleMountedStream
+
+//@ func (*establishLinkWithPeer).IsEquivalent
+//@   ensures ret ==> samegetters(d, other, EstablishLinkWithPeer)
+
+//@ func (*handleMountedStream).IsEquivalent
+//@   ensures ret ==> samegetters(d, other, HandleMountedStream)
